@@ -2630,6 +2630,27 @@ pub(crate) fn constrain_type(expr: &mut TypedExpr, expected: &Type) -> Result<()
             | Op::ShortCircuitAnd
             | Op::ShortCircuitOr => {}
         },
+        (ExprEnum::ArrayAccess(array, _), ty) => {
+            let array_ty = match &array.ty {
+                Type::Array(_, size) => Some(Type::Array(Box::new(ty.clone()), *size)),
+                Type::ArrayConst(_, size) => {
+                    Some(Type::ArrayConst(Box::new(ty.clone()), size.clone()))
+                }
+                _ => None,
+            };
+            if let Some(array_ty) = array_ty {
+                constrain_type(array, &array_ty)?;
+            }
+        }
+        (ExprEnum::TupleAccess(tuple, index), ty) => {
+            if let Type::Tuple(elem_tys) = &tuple.ty {
+                if *index < elem_tys.len() {
+                    let mut elem_tys = elem_tys.clone();
+                    elem_tys[*index] = ty.clone();
+                    constrain_type(tuple, &Type::Tuple(elem_tys))?;
+                }
+            }
+        }
         (ExprEnum::Block(stmts), ty) => {
             if let Some(last) = stmts.last_mut() {
                 if let StmtEnum::Expr(expr) = &mut last.inner {
